@@ -640,7 +640,7 @@ func init() {
 		Bubble: true,
 		Cases: func(tier string) int {
 			if tier == "thorough" {
-				return 12000
+				return 30000
 			}
 
 			return 600
